@@ -10,8 +10,19 @@ import fold
 import convdecode
 
 REPR = (("DT_YMD", "ymd", None), ("DT_YD", "yd", "__ymd_to_yd"), ("DT_YWD", "ywd", "__ymd_to_ywd"), ("DT_YMCW", "ymcw", "__ymd_to_ymcw"),
-        ("DT_DAISY", "daisy", "__ymd_to_daisy"))
+        ("DT_DAISY", "daisy", "__ymd_to_daisy"), ("DT_LDN", "ldn", ("__ymd_to_daisy", "__daisy_to_ldn")), ("DT_MDN", "mdn", ("__ymd_to_daisy", "__daisy_to_mdn")))
 _G = {}
+
+
+def _conv(call, tu, conv, ymd):
+    if conv is None:
+        return ymd
+    if isinstance(conv, tuple):
+        r = ymd
+        for c in conv:
+            r = call(tu, c, r)
+        return r
+    return call(tu, conv, ymd)
 
 
 def _sgn(x):
@@ -40,7 +51,7 @@ def _worker(ys):
             vals = []
             for d in days:
                 ymd = {"y": d.year, "m": d.month, "d": d.day}
-                r = ymd if conv is None else call(tu, conv, ymd)
+                r = _conv(call, tu, conv, ymd)
                 vals.append({"typ": E[tag], mem: r} if not isinstance(r, dict) else {"typ": E[tag], **{mem + "." + k: v for k, v in r.items()}})
             for i in range(0, len(days), 1):
                 for j in range(i, min(len(days), i + 40)):
@@ -59,7 +70,7 @@ def _worker(ys):
             fvals = []
             for d in far:
                 ymd = {"y": d.year, "m": d.month, "d": d.day}
-                r = ymd if conv is None else call(tu, conv, ymd)
+                r = _conv(call, tu, conv, ymd)
                 fvals.append({"typ": E[tag], mem: r} if not isinstance(r, dict) else {"typ": E[tag], **{mem + "." + k: v for k, v in r.items()}})
             own = [(days[0], vals[0]), (days[len(days) // 2 - 1], vals[len(days) // 2 - 1])]
             pairs = [(da, va, db, vb) for (da, va) in own for (db, vb) in zip(far, fvals)]
@@ -93,7 +104,7 @@ def _worker(ys):
             rr2 = []
             for p in own:
                 ymd = {"y": p.year, "m": p.month, "d": p.day}
-                r = call(tu, conv, ymd)
+                r = _conv(call, tu, conv, ymd)
                 dpart = {"d." + mem: r} if not isinstance(r, dict) else {"d." + mem + "." + k: v for k, v in r.items()}
                 rr2.append({"typ": E[tag], "sandwich": 1, "d.typ": E[tag], "t.typ": E["DT_HMS"], "t.hms.h": p.hour, "t.hms.m": p.minute,
                             "t.hms.s": p.second, "t.hms.ns": 0, **dpart})
@@ -135,7 +146,7 @@ def run_parallel(R, P, rule, jobs=12):
             if f is not None and getattr(f, "body", None) is not None:
                 return f
         return None
-    E = {k: (tu.enum_value(k) if tu.enum_value(k) is not None else dtu.enum_value(k)) for k in ("DT_YMD", "DT_YD", "DT_YWD", "DT_YMCW", "DT_DAISY", "DT_HMS", "DT_SEXY")}
+    E = {k: (tu.enum_value(k) if tu.enum_value(k) is not None else dtu.enum_value(k)) for k in ("DT_YMD", "DT_YD", "DT_YWD", "DT_YMCW", "DT_DAISY", "DT_LDN", "DT_MDN", "DT_HMS", "DT_SEXY")}
     if None in E.values():
         raise AnalysisBroken("%s: tags not found %s" % (rule, E))
     _G.update(tu=tu, dtu=dtu, resolve=resolve, E=E)
